@@ -12,4 +12,5 @@ var vEntries = map[string]interface{}{
 	"VLemmaSwr": VLemmaSwr,
 	"VTwoReplicas": VTwoReplicas,
 	"VTransfer": VTransfer,
+	"VCycleExplore": VCycleExplore,
 }
